@@ -71,6 +71,8 @@ def judge(ctx, case, res, mout):
     ev = res['events']
     ctx.case((case['cfg'], case['n'], case['k'], case['label'], case.get('schedule')), case['k'] >= 1 and case['n'] >= 2, sample=small)
     ctx.count('way:' + case['label'])
+    if res.get('retried'):
+        ctx.count('scenarios_rerun_after_a_timeout')
     if res.get('timeout'):
         ctx.fail('stream-deadlock', 'the scenario did not finish within the time limit', small)
         return
